@@ -42,7 +42,9 @@ use std::sync::{Arc, RwLock};
 const MASTER_SEED_SIZE: usize = 32;
 
 /// Sizes for ML-DSA-65 keys
+#[cfg(test)]
 const ML_DSA_PUB_LEN: usize = 1952;
+#[cfg(test)]
 const ML_DSA_SEC_LEN: usize = 4032;
 
 /// Maximum derivation depth to prevent stack overflow
